@@ -83,6 +83,9 @@ type c01In struct {
 	GoType string `json:"gotype,omitempty"`
 	Seed   int64  `json:"seed,omitempty"`
 	Wrap   string `json:"wrap,omitempty"` // "", message, presence, iq
+	// kind reflect: which optional fields are set ("1") / left zero ("0"), one character per
+	// slot of c01Slots(GoType); empty = random fill
+	Mask string `json:"mask,omitempty"`
 	// outside the property's domain (not namespace-explicit, element-name fields that are
 	// not names, characters outside the XML range, an empty *Err): model and code are still
 	// compared, the round-trip oracle does not apply
@@ -97,7 +100,7 @@ func (c01) ID() string    { return "C01" }
 func (c01) RunFn() string { return "run_C01" }
 func (c01) Workers() int  { return 8 }
 func (c01) Rule() string {
-	return "exhaustive: 3 stanza kinds x 2^5 presence patterns of type/id/from/to/lang x {no child, each child alone}; random: text fields from a pool (ASCII, each XML metacharacter alone and mixed, ]]>, blank-padded, TAB/LF/CR, non-ASCII, astral, 2 kB), Err with code 0/non-zero x fields empty/set, generic Node trees depth<=5 width<=4 with attributes and namespaces, registered extensions (subsets, order, repetition) filled by reflection, SM/SASL-auth/handshake elements; oracle-only reflection cases for every registered type and the SM/SASL/handshake elements, alone and inside its stanza kind; oracle-only noise cases: every registered type inside its stanza kind with unknown children and same-named descendants (of the extension, of the enclosing element, of the stanza, of the core children) injected at random places of the extension's bytes, typed fields compared with the clean decode; domain: an IQ whose Error pointer is non-nil and points to the all-empty Err is excluded (written as nothing, read back as nil; kept as a hypothesis of the theorem, wf_iq), generated only as an out-of-domain model/code comparison; distinct = kind + presence pattern of every field + text class + tree shape; non-trivial = at least one non-empty field besides the kind"
+	return "exhaustive: 3 stanza kinds x 2^5 presence patterns of type/id/from/to/lang x {no child, each child alone}; random: text fields from a pool (ASCII, each XML metacharacter alone and mixed, ]]>, blank-padded, TAB/LF/CR, non-ASCII, astral, 2 kB), Err with code 0/non-zero x fields empty/set, generic Node trees depth<=5 width<=4 with attributes and namespaces, registered extensions (subsets, order, repetition) filled by reflection, SM/SASL-auth/handshake elements; oracle-only reflection cases for every registered type and the SM/SASL/handshake elements, alone and inside its stanza kind; oracle-only subset sweep over which optional fields of each such type are set (every optional position at depth <= 3 is a slot: all-unset, all-set, every slot alone, every slot alone unset, all 2^k patterns when k <= 5 and all 2^g patterns of every group of <= 5 sibling fields with the rest unset / set; pointers nil/non-nil, strings empty/non-empty, numbers zero/non-zero, time.Time zero/non-zero, slices empty/non-empty); oracle-only noise cases: every registered type inside its stanza kind with unknown children and same-named descendants (of the extension, of the enclosing element, of the stanza, of the core children) injected at random places of the extension's bytes, typed fields compared with the clean decode; domain: an IQ whose Error pointer is non-nil and points to the all-empty Err is excluded (written as nothing, read back as nil; kept as a hypothesis of the theorem, wf_iq), generated only as an out-of-domain model/code comparison; distinct = kind + presence pattern of every field + text class + tree shape; non-trivial = at least one non-empty field besides the kind"
 }
 
 // ---------------------------------------------------------------- pools
@@ -182,6 +185,11 @@ var c01NullIntT = reflect.TypeOf(stanza.NullableInt{})
 var c01HistoryT = reflect.TypeOf(stanza.History{})
 var c01ForwardedT = reflect.TypeOf(stanza.Forwarded{})
 
+// untagged XMLName fields that are not the user's to set: History.MarshalXML fixes the name;
+// a FormItem is named by the tag of the field it sits in (item / reported) and its XMLName is
+// only what the decoder leaves there
+var c01NameFixed = map[reflect.Type]bool{c01HistoryT: true, reflect.TypeOf(stanza.FormItem{}): true}
+
 func c01TagInfo(f reflect.StructField) (name string, flags map[string]bool) {
 	flags = map[string]bool{}
 	tag := f.Tag.Get("xml")
@@ -256,7 +264,7 @@ func c01Fill(v reflect.Value, r *rand.Rand, depth int, plainText bool) {
 			if name == "-" {
 				continue
 			}
-			if f.Name == "XMLName" && (name != "" || t == c01HistoryT) {
+			if f.Name == "XMLName" && (name != "" || c01NameFixed[t]) {
 				continue // the tag (History: MarshalXML) fixes the name
 			}
 			c01Fill(v.Field(i), r, depth+1, flags["innerxml"])
@@ -333,7 +341,7 @@ func c01CanonOpt(v reflect.Value, dropGeneric bool) interface{} {
 			}
 			name, flags := c01TagInfo(f)
 			if f.Name == "XMLName" && f.Type == c01NameT {
-				if name != "" || t == c01HistoryT {
+				if name != "" || c01NameFixed[t] {
 					continue
 				}
 				out = append(out, f.Name, v.Field(i).Interface().(xml.Name).Local)
@@ -414,20 +422,304 @@ func c01DiffField(a, b reflect.Value) string {
 
 // c01NewFilled: pointer to a value of the named type filled from the seed.
 func c01NewFilled(goType string, seed int64) (reflect.Value, bool) {
+	return c01NewFilledMask(goType, seed, "")
+}
+
+func c01NewFilledMask(goType string, seed int64, mask string) (reflect.Value, bool) {
 	c01Init()
 	t, ok := c01TypeOf[goType]
 	if !ok || t == nil {
 		return reflect.Value{}, false
 	}
 	p := reflect.New(t)
-	c01Fill(p.Elem(), rand.New(rand.NewSource(seed)), 0, false)
+	r := rand.New(rand.NewSource(seed))
+	if mask == "" {
+		c01Fill(p.Elem(), r, 0, false)
+		return p, true
+	}
+	ctx := &c01MaskCtx{mask: make([]bool, len(mask))}
+	for i := range mask {
+		ctx.mask[i] = mask[i] == '1'
+	}
+	c01FillStruct(p.Elem(), r, 0, ctx, "")
 	return p, true
+}
+
+// ---- subset sweep: every optional position of a type is a slot that a mask sets or leaves zero
+
+type c01Slot struct {
+	Path  string
+	Group string // path of the innermost enclosing struct: slots of one group are siblings
+	End   int    // slots [index+1, End) lie below this one
+}
+type c01MaskCtx struct {
+	mask  []bool    // nil: collecting (everything counts as set)
+	i     int       // next slot index
+	slots []c01Slot // collecting mode
+}
+
+func (c *c01MaskCtx) set(i int) bool { return c.mask == nil || (i < len(c.mask) && c.mask[i]) }
+func (c *c01MaskCtx) anySet(a, b int) bool {
+	if c.mask == nil {
+		return true
+	}
+	for i := a; i < b && i < len(c.mask); i++ {
+		if c.mask[i] {
+			return true
+		}
+	}
+	return false
+}
+
+func c01IsLeafStruct(t reflect.Type) bool {
+	return t == c01NameT || t == c01TimeT || t == c01NullIntT || t == c01ForwardedT || t == c01NodeT
+}
+
+// c01NonZero: a value that is certainly not the zero value ("set")
+func c01NonZero(v reflect.Value, r *rand.Rand, plainText bool) {
+	switch v.Kind() {
+	case reflect.String:
+		if plainText {
+			v.SetString("Zm9v" + c01Plain(r, c01B64[:62]))
+		} else {
+			v.SetString(c01Text(r))
+		}
+	case reflect.Bool:
+		v.SetBool(true)
+	case reflect.Int8:
+		v.SetInt(int64(1+r.Intn(127)) * int64(1-2*r.Intn(2)))
+	case reflect.Int, reflect.Int16, reflect.Int32, reflect.Int64:
+		v.SetInt(int64(1+r.Intn(1000)) * int64(1-2*r.Intn(2)))
+	case reflect.Uint, reflect.Uint8, reflect.Uint16, reflect.Uint32, reflect.Uint64:
+		v.SetUint(uint64(1 + r.Intn(200)))
+	case reflect.Struct:
+		switch v.Type() {
+		case c01TimeT:
+			v.Set(reflect.ValueOf(time.Unix(1500000000+int64(r.Intn(1000000)), 0).UTC()))
+		case c01NullIntT:
+			v.Set(reflect.ValueOf(stanza.NewNullableInt(r.Intn(2001) - 1000)))
+		case c01ForwardedT:
+			for v.Field(1).IsNil() {
+				c01Fill(v, r, 0, false)
+			}
+		default:
+			c01Fill(v, r, 0, false)
+		}
+	case reflect.Ptr:
+		e := reflect.New(v.Type().Elem())
+		c01NonZero(e.Elem(), r, plainText)
+		v.Set(e)
+	case reflect.Slice:
+		if v.Type().Elem().Kind() == reflect.Interface && c01Impls[v.Type().Elem()] == nil {
+			return
+		}
+		e := reflect.New(v.Type().Elem()).Elem()
+		c01NonZero(e, r, plainText)
+		v.Set(reflect.Append(reflect.MakeSlice(v.Type(), 0, 1), e))
+	case reflect.Interface:
+		for len(c01Impls[v.Type()]) > 0 && v.IsNil() {
+			c01Fill(v, r, 0, false)
+		}
+	default:
+		c01Fill(v, r, 0, plainText)
+	}
+}
+
+// c01FillStruct: the fields of a general struct, each an optional position
+func c01FillStruct(v reflect.Value, r *rand.Rand, depth int, ctx *c01MaskCtx, path string) {
+	t := v.Type()
+	for i := 0; i < t.NumField(); i++ {
+		f := t.Field(i)
+		if f.PkgPath != "" {
+			continue
+		}
+		name, flags := c01TagInfo(f)
+		if name == "-" || (f.Name == "XMLName" && (name != "" || c01NameFixed[t])) {
+			continue
+		}
+		if f.Name == "XMLName" && f.Type == c01NameT { // an element name is not optional
+			c01Fill(v.Field(i), r, depth+1, false)
+			continue
+		}
+		c01FillSlot(v.Field(i), r, depth, ctx, path+"."+f.Name, path, flags["innerxml"])
+	}
+}
+
+func c01FillSlot(fv reflect.Value, r *rand.Rand, depth int, ctx *c01MaskCtx, path, group string, plainText bool) {
+	ft := fv.Type()
+	if ft.Kind() == reflect.Struct && !c01IsLeafStruct(ft) {
+		c01FillStruct(fv, r, depth+1, ctx, path) // a struct value is not optional itself: its fields are
+		return
+	}
+	idx := ctx.i
+	ctx.i++
+	if ctx.mask == nil {
+		ctx.slots = append(ctx.slots, c01Slot{Path: strings.TrimPrefix(path, "."), Group: group})
+	}
+	defer func() {
+		if ctx.mask == nil {
+			ctx.slots[idx].End = ctx.i
+		}
+	}()
+	switch ft.Kind() {
+	case reflect.Ptr, reflect.Slice:
+		et := ft.Elem()
+		inner := et.Kind() == reflect.Struct && !c01IsLeafStruct(et) && depth < 3
+		e := reflect.New(et).Elem()
+		if inner {
+			c01FillStruct(e, r, depth+1, ctx, path)
+		}
+		if !ctx.set(idx) && !ctx.anySet(idx+1, ctx.i) {
+			return
+		}
+		if !inner {
+			if et.Kind() == reflect.Interface {
+				if len(c01Impls[et]) == 0 {
+					return
+				}
+				for e.IsNil() {
+					c01Fill(e, r, 0, false)
+				}
+			} else if ft.Kind() == reflect.Ptr && (et.Kind() == reflect.Bool || et.Kind() == reflect.Uint || et.Kind() == reflect.Int) {
+				c01Fill(e, r, depth+1, plainText) // a non-nil pointer is "set" whatever it points to
+			} else {
+				c01NonZero(e, r, plainText)
+			}
+		}
+		if ft.Kind() == reflect.Ptr {
+			fv.Set(e.Addr())
+		} else {
+			fv.Set(reflect.Append(reflect.MakeSlice(ft, 0, 1), e))
+		}
+	case reflect.Interface:
+		if !ctx.set(idx) || len(c01Impls[ft]) == 0 {
+			return
+		}
+		for fv.IsNil() {
+			c01Fill(fv, r, 0, false)
+		}
+	default:
+		if ctx.set(idx) {
+			c01NonZero(fv, r, plainText)
+		}
+	}
+}
+
+var (
+	c01SlotMu    sync.Mutex
+	c01SlotCache = map[string][]c01Slot{}
+)
+
+// c01Slots: the optional positions of a type, in fill order
+func c01Slots(goType string) []c01Slot {
+	c01Init()
+	c01SlotMu.Lock()
+	defer c01SlotMu.Unlock()
+	if s, ok := c01SlotCache[goType]; ok {
+		return s
+	}
+	t := c01TypeOf[goType]
+	var slots []c01Slot
+	if t != nil && t.Kind() == reflect.Struct {
+		ctx := &c01MaskCtx{}
+		c01FillStruct(reflect.New(t).Elem(), rand.New(rand.NewSource(1)), 0, ctx, "")
+		slots = ctx.slots
+	}
+	c01SlotCache[goType] = slots
+	return slots
+}
+
+// c01Masks: all-unset, all-set, every single slot alone, every slot alone unset, all 2^k
+// when k <= 5, and for every group of at most 5 sibling slots all its 2^g patterns, once with
+// everything else unset and once with everything else set.
+func c01Masks(goType string) []string {
+	slots := c01Slots(goType)
+	k := len(slots)
+	if k == 0 {
+		return nil
+	}
+	seen := map[string]bool{}
+	var out []string
+	add := func(b []byte) {
+		if s := string(b); !seen[s] {
+			seen[s] = true
+			out = append(out, s)
+		}
+	}
+	fill := func(c byte) []byte { return bytes.Repeat([]byte{c}, k) }
+	add(fill('0'))
+	add(fill('1'))
+	for i := 0; i < k; i++ {
+		m := fill('0')
+		m[i] = '1'
+		add(m)
+		m = fill('1')
+		m[i] = '0'
+		add(m)
+	}
+	if k <= 5 {
+		for x := 0; x < 1<<uint(k); x++ {
+			m := fill('0')
+			for i := 0; i < k; i++ {
+				if x>>uint(i)&1 == 1 {
+					m[i] = '1'
+				}
+			}
+			add(m)
+		}
+	}
+	groups := map[string][]int{}
+	var order []string
+	for i, s := range slots {
+		if _, ok := groups[s.Group]; !ok {
+			order = append(order, s.Group)
+		}
+		groups[s.Group] = append(groups[s.Group], i)
+	}
+	for _, g := range order {
+		idx := groups[g]
+		if len(idx) > 5 || len(idx) == k {
+			continue
+		}
+		for _, bg := range []byte{'0', '1'} {
+			for x := 0; x < 1<<uint(len(idx)); x++ {
+				m := fill(bg)
+				for j, i := range idx {
+					if x>>uint(j)&1 == 1 {
+						m[i] = '1'
+					} else {
+						m[i] = '0'
+					}
+				}
+				add(m)
+			}
+		}
+	}
+	return out
+}
+
+func c01MaskNames(goType, mask string) string {
+	if mask == "" {
+		return ""
+	}
+	var set []string
+	for i, s := range c01Slots(goType) {
+		if i < len(mask) && mask[i] == '1' {
+			set = append(set, s.Path)
+		}
+	}
+	return " [set: " + strings.Join(set, ", ") + "]"
 }
 
 // c01ReflectRoundTrip: marshal, unmarshal into a fresh value, compare, re-marshal.
 // wrap: "" or the stanza kind the extension is carried in.
-func c01ReflectRoundTrip(goType string, seed int64, wrap string) (msg, sig string) {
-	p, ok := c01NewFilled(goType, seed)
+func c01ReflectRoundTrip(goType string, seed int64, wrap string, mask string) (msg, sig string) {
+	defer func() {
+		if msg != "" {
+			msg += c01MaskNames(goType, mask)
+		}
+	}()
+	p, ok := c01NewFilledMask(goType, seed, mask)
 	if !ok {
 		return "unknown Go type " + goType, "harness:unknown-type"
 	}
@@ -664,7 +956,7 @@ func c01ExtSafe(e c01Ext) bool {
 		if sb.String() != string(b) {
 			return false
 		}
-		if m, _ := c01ReflectRoundTrip(e.GoType, e.Seed, ""); m != "" {
+		if m, _ := c01ReflectRoundTrip(e.GoType, e.Seed, "", ""); m != "" {
 			return false
 		}
 		return true
@@ -1060,7 +1352,7 @@ func c01PathName(kind, path string) string {
 func (c01) Oracle(inp interface{}, obs Sx) (string, string) {
 	in := inp.(c01In)
 	if in.Kind == "reflect" {
-		return c01ReflectRoundTrip(in.GoType, in.Seed, in.Wrap)
+		return c01ReflectRoundTrip(in.GoType, in.Seed, in.Wrap, in.Mask)
 	}
 	if in.Kind == "noise" {
 		return c01NoiseRoundTrip(in.GoType, in.Seed, in.Wrap)
@@ -1174,7 +1466,10 @@ func (c01) Key(inp interface{}) (string, bool) {
 	hist("kind:" + in.Kind)
 	if in.Kind == "reflect" || in.Kind == "noise" {
 		hist(in.Kind + ":" + in.GoType + map[bool]string{true: "", false: " in " + in.Wrap}[in.Wrap == ""])
-		return fmt.Sprintf("%s/%s/%s/%d", in.Kind, in.GoType, in.Wrap, in.Seed), true
+		if in.Mask != "" {
+			hist("subset-sweep:" + in.GoType)
+		}
+		return fmt.Sprintf("%s/%s/%s/%d/%s", in.Kind, in.GoType, in.Wrap, in.Seed, in.Mask), true
 	}
 	var sb strings.Builder
 	sb.WriteString(in.Kind + "|")
@@ -1475,6 +1770,33 @@ func (c01) Gen(r *rand.Rand, tier string) []interface{} {
 	for _, t := range c01StreamEl {
 		for s := 0; s < nrefl; s++ {
 			add(c01In{Kind: "reflect", GoType: t, Seed: int64(s)})
+		}
+	}
+	// oracle-only subset sweep: for every registered type (alone and inside its stanza kind) and
+	// the stream elements, which optional fields are set is enumerated, not drawn
+	nsweep := 1
+	if tier == "thorough" {
+		nsweep = 4
+	}
+	swept := map[string]bool{}
+	for _, e := range regs {
+		for _, m := range c01Masks(e.GoType) {
+			for sd := 0; sd < nsweep; sd++ {
+				if !swept[e.GoType] {
+					add(c01In{Kind: "reflect", GoType: e.GoType, Seed: int64(1000 + sd), Mask: m})
+				}
+				if e.Local != "*" {
+					add(c01In{Kind: "reflect", GoType: e.GoType, Seed: int64(1000 + sd), Mask: m, Wrap: []string{"presence", "message", "iq"}[e.Kind]})
+				}
+			}
+		}
+		swept[e.GoType] = true
+	}
+	for _, t := range c01StreamEl {
+		for _, m := range c01Masks(t) {
+			for sd := 0; sd < nsweep; sd++ {
+				add(c01In{Kind: "reflect", GoType: t, Seed: int64(1000 + sd), Mask: m})
+			}
 		}
 	}
 	// oracle-only noise cases: every registered type inside its stanza kind, with unknown
